@@ -8,6 +8,7 @@ mod framework;
 mod gen;
 mod inputs;
 mod life;
+mod opzoo;
 mod prng;
 mod props;
 mod simrt;
